@@ -5,6 +5,7 @@
 -/
 import UnytModel.DriverBase
 import UnytModel.Generated.EquivFormulas
+import UnytModel.EquivUnitsC09
 
 namespace Unyt
 open Unyt.Equiv
@@ -99,6 +100,26 @@ def stepC09 (st : DriverState) (fields : List String) : Option String :=
         | .ok v => some s!"ok\t{bitsStr v}"
         | .error e => some s!"err\t{e.str}"
     | _, _, _, _ => some "bad-op"
+  -- the unit-carrying run of one branch (`Trace.runU`): equivalence, mode, from-dim, to-dim, data
+  -- bits, bits of the input unit's `base_value`, keyword arguments → data, unit scale and
+  -- dimension of what `_convert` returns (copy) / leaves in the caller's array (inplace)
+  | ["c09.chain", k, mode, a, b, d, sc, kw] =>
+    match findEquiv Generated.equivalences k, parseMode mode, Dim.parse a, Dim.parse b, fb d, fb sc with
+    | some e, some m, some da, some db, some dv, some sv =>
+      let kws : Option (List (String × Float)) :=
+        if kw == "" then some [] else
+        (kw.splitOn ";").mapM (fun item => match item.splitOn "=" with
+          | [n, b] => (fb b).map (fun v => (n, v))
+          | _ => none)
+      match kws, e.branch da db with
+      | some kws, some br =>
+        let params := effectiveParams Generated.equivalences (some k) kws
+        let ρ := mkEnv constsFloat params (dv * sv)
+        match br.unitResult (atomDim Generated.equivConstants) ρ m ⟨dv, sv, da⟩ with
+        | some r => some s!"ok\t{bitsStr r.data}\t{bitsStr r.scale}\t{r.dim.str}"
+        | none => some "none"
+      | _, _ => some "bad-op"
+    | _, _, _, _, _, _ => some "bad-op"
   | _ => none
 
 def opsC09 : Handler := fun st fields =>
